@@ -216,9 +216,9 @@ func runRegistry(c regCase) (obs regObs) {
 				rd = fmt.Sprintf(" revision-date %q;", q.Rev)
 			}
 			if q.Inc {
-				body = fmt.Sprintf("include %s {%s }", q.Name, rd)
+				body = fmt.Sprintf("include \"%s\" {%s }", q.Name, rd)
 			} else {
-				body = fmt.Sprintf("import %s { prefix q;%s }", q.Name, rd)
+				body = fmt.Sprintf("import \"%s\" { prefix q;%s }", q.Name, rd)
 			}
 			txt := fmt.Sprintf("module client%d { namespace \"urn:c%d\"; prefix c%d; %s }", i, i, i, body)
 			if err := ms.Parse(txt, fmt.Sprintf("client%d.yang", i)); err != nil {
